@@ -196,14 +196,13 @@ macro_rules! fixed_mul_div {
             #[inline(always)]
             fn div(self, other: Self) -> Self::Output {
                 let mut sign = 1;
-                let mut a = self.0;
-                let mut b = other.0;
-                if a < 0 {
-                    a = -a;
+                // unsigned_abs: negating the minimum value overflows an i32
+                let a = self.0.unsigned_abs();
+                let b = other.0.unsigned_abs();
+                if self.0 < 0 {
                     sign = -1;
                 }
-                if b < 0 {
-                    b = -b;
+                if other.0 < 0 {
                     sign = -sign;
                 }
                 let q = if b == 0 {
@@ -211,7 +210,11 @@ macro_rules! fixed_mul_div {
                 } else {
                     ((((a as u64) << 16) + ((b as u64) >> 1)) / (b as u64)) as u32
                 };
-                Self(if sign < 0 { -(q as i32) } else { q as i32 })
+                Self(if sign < 0 {
+                    (q as i32).wrapping_neg()
+                } else {
+                    q as i32
+                })
             }
         }
 
